@@ -67,6 +67,16 @@ def generate(rs: int, tier: str, index: int) -> dict:
         lit["coefficients"] = [[(v if v else 2) for v in lit["coefficients"][0]]] if size else lit["coefficients"]
     if special == "constant":
         lit = model.gen_constant(ch.sub("c"), shape=shape, kind=kindc, names=names)
+    if kind == "text" and ch.sub("dense").chance(0.03):
+        # many terms: every monomial up to degree 6 in four names (210 terms, a header line well beyond a kilobyte)
+        import itertools
+
+        dn = ["q0", "q1", "q2", "q10"]
+        de = [list(e) for e in itertools.product(range(7), repeat=4) if sum(e) <= 6]
+        dsize = int(numpy.prod(shape, dtype=int))
+        lit = {"names": dn, "shape": list(shape), "dtype": "int64", "exponents": de,
+               "coefficients": [[ch.sub("dense", i).choice([1, 2, -1, 3]) for _ in range(dsize)] for i in range(len(de))]}
+        kindc = "int"
     if kind == "text" and ch.sub("bigexp").chance(0.1):
         # exponents whose storage keys are not ASCII characters (still inside latin-1)
         for e in lit["exponents"]:
@@ -451,6 +461,9 @@ class Runner:
                     self.bump("fault:torn_file.fired")
                     if isinstance(got, numpoly.ndpoly) and tuple(got.shape) != tuple(p.shape):
                         self.violate("torn-file-shape", "loadtxt", sid, f"{drop} data row(s) missing: loadtxt returned shape {got.shape}, the header says {p.shape}", where)
+                        break
+                    if not isinstance(got, numpoly.ndpoly):
+                        self.violate("torn-file-shape", "loadtxt", sid, f"{drop} data row(s) missing: a file with a numpoly header loaded as a plain {type(got).__name__} of shape {getattr(got, 'shape', None)}", where)
                         break
             # ---- read faults: every k
             if step.get("fault") == "read" and msg is None:
